@@ -190,6 +190,11 @@ def staticStep (s : StaticState) : List String → StaticState × String
         ({ s with files := s.files ++ fl.map (symRoot ++ ·), dirs := s.dirs ++ dl.map (symRoot ++ ·) }, "ok")
       else (s, "bad-op")
     | _, _ => (s, "bad-op")
+  | ["sibling", m, regex] =>
+    -- the application registers `<METHOD> <prefix>/{file[:regex]}` for POST, PUT or DELETE before the next mount.
+    -- Every request of this engine is a GET: `match` looks at the routes of the request's method only (and HEAD→GET,
+    -- the fallback route and the 405 list are not reached by a GET), so the model state is untouched.
+    if (m = "POST" ∨ m = "PUT" ∨ m = "DELETE") ∧ (regex = "-" ∨ (Bytes.ofHex regex).isSome) then (s, "ok") else (s, "bad-op")
   | ["gvar", name, regex] =>
     -- `rux.SetGlobalVar(name, regex)` before the next mount.  `parseParamRoute` consults the global vars only
     -- for a route var WITHOUT inline regex; the routes of the four static handlers are `pfx/{file:.+}`,
